@@ -47,6 +47,7 @@ PairPool == {IInt(1), IInt(12), IList(<<IInt(1)>>), IList(<<IInt(12), IList(<<II
           IList(<<IId("a"), IInt(1)>>), IList(<<IInt(1), IId("a")>>)}
 CodeVals == CASE CodePool = "atoms" -> AtomPool [] CodePool = "trees" -> TreePool [] CodePool = "pairs" -> PairPool
               [] CodePool = "one" -> {IInt(1)}
+              [] CodePool = "abc" -> {IInt(1), IId("a"), IList(<<IInt(2)>>)}
               [] CodePool = "recs" -> {IInt(1), IList(<<IInt(4), IBool(TRUE), IFloat(FOne)>>),
                                       IList(<<IList(<<IInt(5), IInt(6)>>), IFloat(1073741824), IBool(FALSE), IInt(7)>>)}
 
